@@ -57,6 +57,29 @@ func TestVerifReplayC15(t *testing.T) {
 			base = "tasks:\n"
 		}
 		doc = base + extraTask + ctx + "pipelines:\n  p1:\n    - task: t1\n" + p1extra + "  p2:\n    - task: t1\n      name: s\n" + extra + watchers
+	case "VerifC15Grammar":
+		var in struct {
+			Inputs map[string]interface{} `json:"inputs"`
+		}
+		json.Unmarshal(data, &in)
+		num := func(k string) int { f, _ := in.Inputs[k].(float64); return int(f) }
+		t2 := []string{"  t2:\n", "  t2: {}\n", "  t2:\n    command: ['true']\n    context: c1\n    variations: [null]\n",
+			"  t2:\n    command: []\n    context: nosuch\n    before: ['']\n    env: {}\n",
+			"  t2:\n    name: renamed\n    command: [a, b]\n    variations: [{}, {K: v}]\n    condition: c\n    exportas: E\n    dir: /d\n",
+			"  t2:\n    command: ['true']\n"}[shape]
+		c2 := []string{"  c2:\n", "  c2: {}\n", ""}[num("context.c2.shape")]
+		p2 := []string{"  p2:\n", "  p2: []\n", "  p2:\n    - task: t1\n"}[num("pipeline.p2.shape")]
+		stage := func(k int) string {
+			return []string{"    -\n", "    - {}\n", "    - task: t1\n",
+				"    - task: t1\n      name: n\n      depends_on: [t1]\n      dir: /x\n      env: {A: b}\n",
+				"    - pipeline: p2\n      dir: /x\n      condition: c\n      allow_failure: true\n",
+				"    - task: t1\n      pipeline: p2\n      depends_on: []\n",
+				"    - name: only-a-name\n      depends_on: [t1]\n",
+				"    - pipeline: p1\n      name: self\n"}[k]
+		}
+		w := []string{"  w:\n", "  w:\n    task: nosuch\n", "  w:\n    task: t2\n    exclude: ['']\n", "  w:\n    task: t1\n    watch: ['*.nothing']\n"}[num("watcher.shape")]
+		doc = "tasks:\n  t1:\n    command: ['true']\n" + t2 + "contexts:\n  c1:\n    dir: /tmp\n" + c2 + "pipelines:\n" + p2 + "  p1:\n" +
+			stage(num("stage.p1.0.shape")) + stage(num("stage.p1.1.shape")) + "watchers:\n" + w
 	case "VerifC15EnvFile":
 		lines := []string{"A=1", "A", "A=1=2", "=", "", "=x", "# comment"}
 		os.WriteFile(filepath.Join(dir, "vars.env"), []byte(lines[sc.Args[0]]+"\n"+lines[sc.Args[1]]+"\n"), 0o644)
